@@ -7,5 +7,6 @@ from excel2pycl.src.translators.abstract_translator import AbstractTranslator
 class PatternTokenTranslator(AbstractTranslator):
     @classmethod
     def translate(cls, token: PatternToken, excel: Excel, context: Context) -> str:
-        # the pattern text (without its surrounding double quotes) is emitted as a quoted Python literal
-        return f'self._regexp({token.value[0][1:-1]!r})'
+        # the text of the pattern (without its surrounding double quotes) as it is: what ? and * stand for is decided by
+        # the function that receives the text (a criterion, SEARCH), anywhere else they are ordinary characters
+        return repr(token.value[0][1:-1])
